@@ -19,7 +19,8 @@ RULE = ('a case = a generated host program (nested calls across modules, if/else
         'functions, generators consumed fully / partially and closed, a method) x entry points on 1-3 real threads '
         '(sys.settrace via rig.run_traced; threading.settrace + threads started afterwards under a forced schedule; '
         'threads run one after the other so that thread idents are reused) x 2-7 tracepoints: method spans '
-        '(span=method + method_name), line spans, deferred method / line captures (directly constructed '
+        '(span=method + method_name), line spans (40% / 40% of them with an explicit stage method_start|method_end / '
+        'line_start|line_end), deferred method / line captures (directly constructed '
         'LocationAction with a *_capture stage), several on one function / line (several callbacks per context), '
         'plain snapshot/log tracepoints in between; fire_count=-1 fire_period=0; 40% of the span / capture '
         'tracepoints have a scripted condition (arbitrary open/not-open per hit). Main stream: the reference stream '
@@ -95,11 +96,15 @@ HOOK_SRC = ('def h(n, k):\n'                                    # 1
             '    return r\n')                                   # 12
 
 
-def span_tp(n, path, line=0, method=None, scripted=False, via='resp'):
+def span_tp(n, path, line=0, method=None, scripted=False, via='resp', stage=None):
     args = dict(th.UNLIMITED)
     args.update(snapshot='no_collect', span='method' if method else 'line')
     if method:
         args['method_name'] = method
+    if stage:
+        # an explicit stage of the same family (method_start / method_end, line_start / line_end): the position of a
+        # location is not part of where it is — the span still opens when the function is entered / the line reached
+        args['stage'] = ('method_' if method else 'line_') + stage
     tp = {'id': 'tp%d' % n, 'path': path, 'line': line, 'args': args, 'metrics': [], 'via': via}
     if scripted:
         tp['scripted'] = True
@@ -245,12 +250,14 @@ def gen_tps(rng, prog, entries, want_stack=False):
         scripted = rng.random() < 0.4
         if r < 0.35 and ex_calls:
             f, fn = rng.choice(ex_calls)
-            tps.append(span_tp(len(tps), f, method=fn, scripted=scripted, via=rng.choice(['resp', 'custom'])))
+            tps.append(span_tp(len(tps), f, method=fn, scripted=scripted, via=rng.choice(['resp', 'custom']),
+                               stage=rng.choice([None, None, 'end', 'end', 'start'])))
             if rng.random() < 0.3:       # a second callback in the same context
                 tps.append(cap_tp(len(tps), f, method=fn, scripted=rng.random() < 0.3))
         elif r < 0.65 and ex_lines:
             f, l = rng.choice(ex_lines)
-            tps.append(span_tp(len(tps), f, line=l, scripted=scripted, via=rng.choice(['resp', 'custom'])))
+            tps.append(span_tp(len(tps), f, line=l, scripted=scripted, via=rng.choice(['resp', 'custom']),
+                               stage=rng.choice([None, None, None, 'end', 'start'])))
             if rng.random() < 0.2:
                 tps.append(span_tp(len(tps), f, line=l, via='custom'))
         elif r < 0.80 and ex_calls:
@@ -687,15 +694,24 @@ def known_finding(case, obs):
     pending).  The case is an instance only if every violated thread is one."""
     if sub(case) or 'raised' in obs or 'ref' not in obs:
         return None
-    flags = {}
+    flags, strict_only = {}, {}
     for t in threads_of(case):
         events = obs['ref'].get(t, [])
         op = opens_of(case, events, t)
         flags[t] = (th.name_confusion(events, op), th.stacked(events, op) or th.stacked_strict(events, op),
                     th.caught_completes(events, method_cap_opens(case, events, t)))
+        strict_only[t] = not flags[t][0] and not flags[t][2] and not th.stacked(events, op)
     bad = [t for t in threads_of(case) if oracle_thread(case, obs, t)]
     if not bad or not obs['host_same'] or not obs['trace_kept']:
         return None
+    for t in bad:
+        # both kinds of context pending at an own EXCEPTION event only (NoStack holds, NoStackStrict does not): every
+        # context is still completed inside its invocation (c15_partial / c15_weak_partial); the finding is only about
+        # WHICH value a deferred method capture attaches (c15_capture_strict_witness).  Anything else — a span never
+        # closed, work left pending — is not an instance.
+        if strict_only[t] and flags[t][1] and \
+                not all('deferred method capture' in x or 'deferred capture' in x for x in oracle_thread(case, obs, t)):
+            return None
     if any(t not in threads_of(case) for t in obs['effects']):
         return None
     if not all(flags[t][0] or flags[t][1] or flags[t][2] for t in bad):
